@@ -11,6 +11,7 @@ struct Stats {
     keys: u64,
     sigs: u64,
     bad: u64,
+    loaded: u64,
     lead0_x: u64,
     lead0_y: u64,
     short_r: u64,
@@ -70,17 +71,61 @@ fn canonical_thumb_input(j: &Value) -> String {
     }
 }
 
-fn check_one(kt: KeyType, msgs: u64, rng: &mut Rng, st: &mut Stats) {
+/// A key made by OpenSSL alone and handed to acme_common in one of its input formats ("loaded" keys); RSA keys get
+/// unusual public exponents now and then.
+fn foreign_key(kt: KeyType, rng: &mut Rng) -> Result<(KeyPair, String), String> {
+    use openssl::bn::BigNum;
+    use openssl::ec::{EcGroup, EcKey};
+    use openssl::nid::Nid;
+    use openssl::pkey::{Id, PKey};
+    use openssl::rsa::Rsa;
+    let es = |e: openssl::error::ErrorStack| e.to_string();
+    let mut label = String::new();
+    let pk = match kt {
+        KeyType::Rsa2048 | KeyType::Rsa4096 => {
+            let bits = if kt == KeyType::Rsa2048 { 2048 } else { 4096 };
+            let exps = ["3", "5", "17", "257", "65537", "65539", "16777217", "4294967297"];
+            let e = exps[rng.below(exps.len() as u64) as usize];
+            label = format!("e={e}");
+            let rsa = Rsa::generate_with_e(bits, &*BigNum::from_dec_str(e).map_err(es)?).map_err(es)?;
+            PKey::from_rsa(rsa).map_err(es)?
+        }
+        KeyType::EcdsaP256 | KeyType::EcdsaP384 | KeyType::EcdsaP521 => {
+            let nid = match kt { KeyType::EcdsaP256 => Nid::X9_62_PRIME256V1, KeyType::EcdsaP384 => Nid::SECP384R1, _ => Nid::SECP521R1 };
+            let g = EcGroup::from_curve_name(nid).map_err(es)?;
+            PKey::from_ec_key(EcKey::generate(&g).map_err(es)?).map_err(es)?
+        }
+        KeyType::Ed25519 => PKey::generate_ed25519().map_err(es)?,
+        KeyType::Ed448 => PKey::generate_ed448().map_err(es)?,
+    };
+    let fmt = rng.below(3);
+    let kp = match fmt {
+        0 => { label += " pkcs8-pem"; KeyPair::from_pem(&pk.private_key_to_pem_pkcs8().map_err(es)?).map_err(|e| e.to_string())? }
+        1 if pk.id() == Id::RSA => { label += " rsa-pem"; KeyPair::from_pem(&pk.rsa().map_err(es)?.private_key_to_pem().map_err(es)?).map_err(|e| e.to_string())? }
+        1 if pk.id() == Id::EC => { label += " ec-pem"; KeyPair::from_pem(&pk.ec_key().map_err(es)?.private_key_to_pem().map_err(es)?).map_err(|e| e.to_string())? }
+        _ => { label += " der"; KeyPair::from_der(&pk.private_key_to_der().map_err(es)?).map_err(|e| e.to_string())? }
+    };
+    Ok((kp, label))
+}
+
+fn check_one(kt: KeyType, msgs: u64, rng: &mut Rng, st: &mut Stats, loaded: bool) {
     let mut why: Vec<String> = vec![];
-    let kp = match gen_keypair(kt) {
+    let mut origin = String::from("generated");
+    let made = if loaded {
+        foreign_key(kt, rng).map(|(k, l)| { origin = format!("loaded ({})", l.trim()); k }).map_err(|e| format!("loading a key made by OpenSSL: {e}"))
+    } else {
+        gen_keypair(kt).map_err(|e| format!("gen_keypair: {e}"))
+    };
+    let kp = match made {
         Ok(k) => k,
         Err(e) => {
             st.bad += 1;
-            st.failures.push(json!({"key_type": kt.to_string(), "why": [format!("gen_keypair: {e}")]}));
+            st.failures.push(json!({"key_type": kt.to_string(), "why": [e]}));
             return;
         }
     };
     st.keys += 1;
+    if loaded { st.loaded += 1; }
     if kp.key_type != kt {
         why.push("generated key has another type".into());
     }
@@ -208,7 +253,7 @@ fn check_one(kt: KeyType, msgs: u64, rng: &mut Rng, st: &mut Stats) {
     if !why.is_empty() {
         st.bad += 1;
         if st.failures.len() < 10 {
-            st.failures.push(json!({"key_type": kt.to_string(), "why": why,
+            st.failures.push(json!({"key_type": kt.to_string(), "origin": origin, "why": why,
                 "private_der_hex": kp.private_key_to_der().map(|d| hex(&d)).unwrap_or_default()}));
         }
     }
@@ -222,6 +267,7 @@ pub fn run(lines: &[Value]) {
         let threads = p["threads"].as_u64().unwrap_or(1).max(1);
         let msgs = p["msgs"].as_u64().unwrap_or(3);
         let seed = p["seed"].as_u64().unwrap_or(0);
+        let loaded_every = p["loaded_every"].as_u64().unwrap_or(4);
         let total = Arc::new(Mutex::new(Stats::default()));
         let mut hs = vec![];
         for t in 0..threads {
@@ -230,11 +276,12 @@ pub fn run(lines: &[Value]) {
             hs.push(std::thread::spawn(move || {
                 let mut st = Stats::default();
                 let mut rng = Rng(seed.wrapping_mul(1000003).wrapping_add(t));
-                for _ in 0..share {
-                    check_one(kt, msgs, &mut rng, &mut st);
+                for j in 0..share {
+                    // every fourth key comes from outside (made by OpenSSL alone, loaded from PEM / DER), in between the generated ones
+                    check_one(kt, msgs, &mut rng, &mut st, loaded_every > 0 && j % loaded_every == 1);
                 }
                 let mut g = total.lock().unwrap();
-                g.keys += st.keys; g.sigs += st.sigs; g.bad += st.bad;
+                g.keys += st.keys; g.sigs += st.sigs; g.bad += st.bad; g.loaded += st.loaded;
                 g.lead0_x += st.lead0_x; g.lead0_y += st.lead0_y; g.short_r += st.short_r; g.short_s += st.short_s;
                 for (k, v) in st.rsa_e_len { *g.rsa_e_len.entry(k).or_insert(0) += v; }
                 for (k, v) in st.spki_prefix_len { *g.spki_prefix_len.entry(k).or_insert(0) += v; }
@@ -243,7 +290,7 @@ pub fn run(lines: &[Value]) {
         }
         for h in hs { let _ = h.join(); }
         let g = total.lock().unwrap();
-        println!("{}", json!({"key_type": kt.to_string(), "keys": g.keys, "sigs": g.sigs, "bad": g.bad,
+        println!("{}", json!({"key_type": kt.to_string(), "loaded": g.loaded, "keys": g.keys, "sigs": g.sigs, "bad": g.bad,
             "lead0_x": g.lead0_x, "lead0_y": g.lead0_y, "short_r": g.short_r, "short_s": g.short_s,
             "rsa_e_len": g.rsa_e_len, "spki_prefix_len": g.spki_prefix_len, "failures": g.failures}));
     }
